@@ -46,9 +46,14 @@ def run(ck):
             files.append((role, "f%d.slice" % j, t))
         extra = ["--diagnostic-format", "json"]
         if kind == "io":
-            what = rng.choice(["missing-file", "not-slice", "directory-as-source", "path-through-a-file", "symlink-loop", "dangling-symlink"])
+            what = rng.choice(["missing-file", "not-slice", "directory-as-source", "path-through-a-file", "symlink-loop", "dangling-symlink", "not-utf8", "not-utf8"])
             if what == "missing-file":
                 extra.append(rng.choice(["nope.slice", "sub/nope.slice"]))
+            elif what == "not-utf8":
+                # a file that is not valid UTF-8 (the stray byte sits in a comment, a doc comment, a string argument or an identifier) cannot be read as text
+                bad = rng.choice([b"module Bytes\n// caf\xe9\nstruct B {}\n", b"module Bytes\n/// r\xe9sum\xe9\nstruct B {}\n", b"module Bytes\n[x::a(\"\xff\")] struct B {}\n",
+                                  b"// \xc3\nmodule Bytes\n", b"module Bytes\nstruct B\xe9 {}\n", b"\xfe\xff\x00m"])
+                files.append((rng.choice("SR"), "bytes%d.slice" % i, bad))
             elif what == "path-through-a-file":
                 # a path whose parent is a regular file: it cannot be examined, which is an error like any other unreadable input
                 extra += rng.choice([[], ["-R"]]) + ["f0.slice/inner.slice"]
